@@ -413,18 +413,20 @@ func Values(t *schema.Type, depth int) []*Value {
 	return LeafValues(t, depth)
 }
 
-// keyValues returns distinct map keys of a primitive type (NaN keys are outside the value domain:
-// they are unaddressable in Go maps; ±0 floats collide as keys, only +0 is used).
+// keyValues returns distinct map keys of a primitive type (±0 floats collide as keys, only +0 is used; of the NaNs only
+// the quiet one is used, at most once per map).
 func keyValues(key string) []*Value {
 	t := schema.P(key)
 	all := LeafValues(t, 0)
 	var out []*Value
 	seen := map[string]bool{}
 	for _, v := range all {
-		if key == "float32" && (v.Bits == f32NaNq || v.Bits == f32NaNp || v.Bits == 0x80000000) {
+		// one NaN key per map is in the domain (a Go map holds it, the encoders write it, the decoders must cope with an
+		// entry that cannot be looked up again); it is moved to the second position below so that small maps contain it
+		if key == "float32" && (v.Bits == f32NaNp || v.Bits == 0x80000000) {
 			continue
 		}
-		if key == "float64" && (v.Bits == f64NaNq || v.Bits == f64NaNp || v.Bits == 0x8000000000000000) {
+		if key == "float64" && (v.Bits == f64NaNp || v.Bits == 0x8000000000000000) {
 			continue
 		}
 		if key == "date" && v.DateV != 0 {
@@ -435,6 +437,13 @@ func keyValues(key string) []*Value {
 		if !seen[n] {
 			seen[n] = true
 			out = append(out, v)
+		}
+	}
+	for i, v := range out {
+		if (key == "float32" && v.Bits == f32NaNq || key == "float64" && v.Bits == f64NaNq) && i > 1 {
+			copy(out[2:i+1], out[1:i])
+			out[1] = v
+			break
 		}
 	}
 	return out
